@@ -47,6 +47,21 @@ func runC13(c *Ctx) {
 	}
 	vnetExclude(p, assign, addNIC, dial, assignPort, allocLocal, insert, find, del, cclose, onClosed, netIn)
 	la := computeLocksets(p)
+	// the ephemeral-port search: assignPort, or the function it forwards to with the same result (the search taking
+	// the range as a value, assignPort kept as a thin wrapper for its callers)
+	portSearch := map[*ssa.Function]bool{assignPort: true}
+	if assignPort != nil {
+		for _, rv := range returnedValues(assignPort, 0) {
+			if ex, ok := rv.(*ssa.Extract); ok {
+				if cl, ok := ex.Tuple.(*ssa.Call); ok {
+					if sc := cl.Call.StaticCallee(); sc != nil && pkgOf(sc) == "vnet" && sc.Signature.Results().Len() == 2 {
+						portSearch[sc] = true
+					}
+				}
+			}
+		}
+	}
+	isPortSearch := func(f *ssa.Function) bool { return f != nil && portSearch[f] }
 
 	// R1 automatic address tested against the NIC table
 	o := c.Obl("R1", fname(assign), "every automatically assigned address is returned on the not-present edge of a lookup of that very address in the NIC table (the key used at registration), under the router mutex held by the caller", 1)
@@ -187,7 +202,7 @@ func runC13(c *Ctx) {
 						return false
 					}
 					cl, ok := origin(ex.Tuple).(*ssa.Call)
-					return ok && cl.Call.StaticCallee() == assignPort && ex.Index == 1
+					return ok && isPortSearch(cl.Call.StaticCallee()) && ex.Index == 1
 				}, true) {
 					cut = append(cut, cfgEdge{b, b.Succs[k]})
 				}
@@ -215,7 +230,7 @@ func runC13(c *Ctx) {
 						return false
 					}
 					cl, ok := origin(ex.Tuple).(*ssa.Call)
-					return ok && cl.Call.StaticCallee() == assignPort && ex.Index == 1
+					return ok && isPortSearch(cl.Call.StaticCallee()) && ex.Index == 1
 				}, true) || boolFact(ft, func(v ssa.Value) bool {
 					ex, ok := v.(*ssa.Extract)
 					if !ok || ex.Index != 1 {
@@ -234,11 +249,56 @@ func runC13(c *Ctx) {
 	// ephemeral range constants and the value inserted
 	for _, in := range findU(dial, func(in ssa.Instruction) bool {
 		cl, ok := in.(*ssa.Call)
-		return ok && cl.Call.StaticCallee() == assignPort
+		return ok && isPortSearch(cl.Call.StaticCallee())
 	}) {
 		cl := in.(*ssa.Call)
-		lo, ok1 := constInt(cl.Call.Args[2])
-		hi, ok2 := constInt(cl.Call.Args[3])
+		var lo, hi int64
+		ok1, ok2 := false, false
+		if len(cl.Call.Args) >= 4 {
+			lo, ok1 = constInt(cl.Call.Args[2])
+			hi, ok2 = constInt(cl.Call.Args[3])
+		} else if len(cl.Call.Args) == 3 {
+			// the range handed over as one value: a package-level struct of two integer constants set once by the
+			// package initialiser
+			if u, isU := cl.Call.Args[2].(*ssa.UnOp); isU && u.Op == token.MUL {
+				if g, isG := u.X.(*ssa.Global); isG && g.Pkg != nil {
+					var ks []int64
+					written := false
+					for _, f := range p.Funcs {
+						if f.Pkg != g.Pkg || f.Name() == "init" {
+							continue
+						}
+						instrsOf(f, func(x ssa.Instruction) {
+							if st, ok := x.(*ssa.Store); ok {
+								if fa, ok := st.Addr.(*ssa.FieldAddr); ok && fa.X == ssa.Value(g) {
+									written = true
+								}
+								if st.Addr == ssa.Value(g) {
+									written = true
+								}
+							}
+						})
+					}
+					if initFn := g.Pkg.Func("init"); initFn != nil && !written {
+						instrsOf(initFn, func(x ssa.Instruction) {
+							if st, ok := x.(*ssa.Store); ok {
+								if fa, ok := st.Addr.(*ssa.FieldAddr); ok && fa.X == ssa.Value(g) {
+									if k, isC := constInt(st.Val); isC {
+										ks = append(ks, k)
+									}
+								}
+							}
+						})
+					}
+					if len(ks) == 2 {
+						lo, hi, ok1, ok2 = ks[0], ks[1], true, true
+						if lo > hi {
+							lo, hi = hi, lo
+						}
+					}
+				}
+			}
+		}
 		o.Site(in.Pos(), "assignPort(ip, %d, %d)", lo, hi)
 		if !ok1 || !ok2 || lo != 5000 || hi != 5999 {
 			o.Fail(in.Pos(), "the ephemeral range is not 5000-5999")
